@@ -39,6 +39,7 @@ class Ctx:
         self.front_end = front_end
         self.inventories = list(inventories)
         self.features = features  # None = everything enabled
+        self.allow_labels = True  # §5.6: include files (possibly included twice) carry no explicit labels
         self.fn = 0
         self.lab = 0
         self.eq = 0
@@ -49,6 +50,8 @@ class Ctx:
         return self.features is None or feature in self.features
 
     def new_label(self) -> str:
+        if not self.allow_labels:
+            return ""
         self.lab += 1
         lab = f"{self.docname.replace('/', '-')}-lab{self.lab}"  # §5.6 project-unique labels
         self.labels.append(lab)
@@ -123,7 +126,7 @@ def inline(r, c: Ctx, depth=0) -> str:
         return r.choice(["<span class=\"x\">s</span>", "<b>b</b>", "<img src=\"img.png\" alt=\"a\">",
                          "<img src=img.png height>", "<br>", "<!-- c -->", "<unclosed", "<a href='x'>"])
     if k < 0.97 and "attrs_inline" in c.ext:
-        return r.choice([f"[{w}]{{.cls #{c.new_label()}}}", "`c`{.lang}", "![a](img.png){width=10px}",
+        return r.choice([f"[{w}]{{.cls #{c.new_label()}}}" if c.allow_labels else f"[{w}]{{.cls}}", "`c`{.lang}", "![a](img.png){width=10px}",
                          f"[{w}]{{bad=}}", f"[{w}](https://x.y){{target=_blank}}"])
     if k < 0.985 and "strikethrough" in c.ext:
         return f"~~{w}~~"
@@ -208,7 +211,7 @@ def b_admonition(r, c, depth):
     opts = {}
     if r.random() < 0.4:
         opts["class"] = r.choice(["tip", "my-class", "a b"])
-    if r.random() < 0.2:
+    if r.random() < 0.2 and c.allow_labels:
         opts["name"] = c.new_label()
     if r.random() < 0.12:
         opts[r.choice(["unknownopt", "class"])] = r.choice(["[unclosed", "'a", "&ref", "*ali", "{a: 1}", "x"])
@@ -226,12 +229,13 @@ def b_directive_misc(r, c, depth):
         return _fence(r, c, "image", r.choice(["img.png", "https://x.y/i.png", "", "missing img.png"]),
                       {"alt": words(r, 1, 2), "width": r.choice(["100px", "50%", "wide"])}, "")
     if k == 2:
-        return _fence(r, c, "figure", "img.png", {"name": c.new_label()}, para(r, c))
+        return _fence(r, c, "figure", "img.png", {"name": c.new_label()} if c.allow_labels else {}, para(r, c))
     if k == 3:
         return _fence(r, c, "list-table", words(r, 1, 2), {"header-rows": r.choice(["1", "0", "x"])},
                       "* - a\n  - b\n* - c\n  - d" + r.choice(["", "\n* - only one"]))
     if k == 4:
-        return _fence(r, c, "math", "", {"label": f"{lab}-eq{r.randint(1, 2)}"} if r.random() < 0.3 else {}, "a^2 + b^2")
+        return _fence(r, c, "math", "", {"label": f"{lab}-eq{r.randint(1, 2)}"} if (
+            r.random() < 0.3 and c.allow_labels) else {}, "a^2 + b^2")
     if k == 5:
         return _fence(r, c, "topic", words(r, 1, 2), {}, para(r, c))
     if k == 6:
@@ -265,7 +269,8 @@ def b_eval_rst(r, c, depth):
     body = r.choice([
         "A *rst* paragraph with ``literal``.",
         ".. note::\n\n   rst note",
-        "Title\n-----\n\ntext",
+        # §5.6: an rST section title becomes an explicit (project-wide) label, so it must be unique
+        (f"Rst {c.new_label()}\n" + "-" * 40 + "\n\ntext") if c.allow_labels else "plain rst text",
         ".. unknown-rst-directive::\n\n   x",
         ":unknownrole:`x` and `interpreted`",
         "* item\n* item",
@@ -310,7 +315,7 @@ def b_include(r, c, depth):
 
 
 def b_figure_md(r, c, depth):
-    arg = c.new_label() if r.random() < 0.6 else ""
+    arg = c.new_label() if (r.random() < 0.6 and c.allow_labels) else ""
     opts = {"class": "myclass"} if r.random() < 0.3 else {}
     body = r.choice([
         "<img src=\"img.png\" alt=\"fishy\" width=\"200px\">\n\nThis is a caption in **Markdown**",
@@ -322,6 +327,8 @@ def b_figure_md(r, c, depth):
 
 
 def b_target(r, c, depth):
+    if not c.allow_labels:
+        return para(r, c)
     return f"({c.new_label()})=\n" + r.choice(["## " + r.choice(TITLES), para(r, c)])
 
 
@@ -337,10 +344,11 @@ def b_refdef(r, c, depth):
 
 
 def b_html(r, c, depth):
+    nm = f" name=\"{c.new_label()}\"" if c.allow_labels else ""  # §5.6 project-unique names
     return r.choice([
-        "<div class=\"admonition note\" name=\"html-adm\">\n<p class=\"title\">HTML title</p>\n<p>para *md*</p>\n</div>",
+        f"<div class=\"admonition note\"{nm}>\n<p class=\"title\">HTML title</p>\n<p>para *md*</p>\n</div>",
         "<div class=\"admonition\">\nno title\n</div>",
-        "<img src=\"img.png\" alt=\"a\" class=\"c1 c2\" width=\"10\" height=\"x\" name=\"n\">",
+        f"<img src=\"img.png\" alt=\"a\" class=\"c1 c2\" width=\"10\" height=\"x\"{nm}>",
         "<img src=\"img.png\" alt>",
         "<div>\n\n*md inside*\n\n</div>",
         "<table><tr><td>x</td></tr></table>",
@@ -356,6 +364,8 @@ def b_math(r, c, depth):
     k = r.random()
     if k < 0.4 and "dollarmath" in c.ext:
         c.eq += 1
+        if not c.allow_labels:
+            return r.choice(["$$\nb = 2\n$$", "$$ c $$"])
         return r.choice([f"$$\na = {c.eq}\n$$ ({lab}-eq{c.eq})", "$$\nb = 2\n$$", "$$ c $$"])
     if "amsmath" in c.ext:
         return r.choice(["\\begin{equation}\na = 1\n\\end{equation}", "\\begin{align*}\nb &= 2\n\\end{align*}",
@@ -387,7 +397,8 @@ def b_misc(r, c, depth):
         "    indented code",
         "Setext\n======",
         "{{ key_block }}" if "substitution" in c.ext else "text",
-        "{.cls #" + c.new_label() + "}\nA paragraph with block attrs" if "attrs_block" in c.ext else "text",
+        ("{.cls #" + c.new_label() + "}\nA paragraph with block attrs") if (
+            "attrs_block" in c.ext and c.allow_labels) else "text",
         "{bad attrs\ntext",
         "\\",
         "&nbsp;",
@@ -489,6 +500,7 @@ def gen_include_file(r, c: Ctx) -> str:
     k = r.random()
     sub = Ctx(c.docname + "-inc", c.other_docs, [], c.labels, c.ext, c.front_end, c.inventories, c.features,
               c.link_files)
+    sub.allow_labels = False
     if k < 0.1:
         return ""
     if k < 0.2:
@@ -578,7 +590,7 @@ def gen_project(r, *, n_docs=None, front_end="sphinx", features=None, cfg=None, 
     incs = r.sample(INC_POOL, k=r.randint(1, 3))
     cfg = cfg if cfg is not None else gen_config(r, front_end)
     files: dict = {"conf.py": CONF_PY, "img.png": {"hex": PNG_1x1_HEX}, "files/data.txt": "data\n",
-                   "sub/img.png": {"hex": PNG_1x1_HEX}}
+                   "sub/pic.png": {"hex": PNG_1x1_HEX}}  # §5.6: project-unique image basenames
     inv_keys = []
     if with_inventory:
         spec = gi.gen_spec(r, max_objects=12)
